@@ -77,6 +77,27 @@ def skewed_db():
     return db
 
 
+def renamed_db():
+    """A project database whose category names and unit symbols are the shipped ones while its quantity types are
+    named differently (category 'length' with unit 'm' is of quantity type 'distance'): anything remembered per
+    (category, unit) outside a database shows when it is used first."""
+    from barril.units import UnitDatabase
+
+    db = UnitDatabase()
+    db.AddUnitBase("distance", "meters", "m")
+    db.AddUnit("distance", "centimeters", "cm", "%f * 100.0", "%f / 100.0")
+    db.AddUnit("distance", "kilometers", "km", "%f / 1000.0", "%f * 1000.0")
+    db.AddUnit("distance", "feet", "ft", "%f / 0.3048", "%f * 0.3048")
+    db.AddUnitBase("duration", "seconds", "s")
+    db.AddUnit("duration", "minutes", "min", "%f / 60.0", "%f * 60.0")
+    db.AddUnit("duration", "hours", "h", "%f / 3600.0", "%f * 3600.0")
+    db.AddUnitBase("heat", "Kelvin", "K")
+    db.AddUnit("heat", "Celsius", "degC", "%f - 273.15", "%f + 273.15")
+    for c, qt in (("length", "distance"), ("depth", "distance"), ("diameter", "distance"), ("time", "duration"), ("temperature", "heat")):
+        db.AddCategory(c, qt)
+    return db
+
+
 def refused_reregistrations(db, symbols):
     """Try to register symbols the database already has once more, with other formulas.  The library refuses (a unit
     symbol belongs to one quantity type, once); a refused call changes nothing, so everything checked afterwards is
